@@ -415,6 +415,8 @@ def check(rep, F, tier, replay=None):
     sib_qty_rule(rep, F)
     from ruleutil import recalc_all_rule
     recalc_all_rule(rep, F)
+    from ruleutil import minada_whole_rule
+    minada_whole_rule(rep, F)
     return rep.finish(
         EXPLANATION,
         ["min_ada_for_output's numeric bound (fixed point over the coin width) is not decided statically", "collateral return gates are C19's rules"],
